@@ -4,10 +4,11 @@ CONSTANTS
   MaxVer = 99
   MaxReorgs = 99
   MaxCrashes = 99
-  Gated = TRUE
+  Gates = {"att", "prop", "acct", "cancel", "sched", "run"}
+  Interleave = FALSE
   Cfgs <- TraceCfgs
   OraclesFor <- TraceOraclesFor
-INVARIANTS TypeOK JobTimeRight JobCoversExactly NoSlotTwice OnlyStrictlyLaterOnStart SyncWindowRight EpochTickOnce NoFutureDutyUnscheduled NoStaleJob ReorgActedOn
+INVARIANTS TypeOK JobTimeRight JobCoversExactly NoSlotTwice OneJobPerDutySlot OnlyStrictlyLaterOnStart SyncWindowRight EpochTickOnce NoFutureDutyUnscheduled NoStaleJob ReorgActedOn
 CONSTRAINT HWM
 POSTCONDITION TraceAccepted
 CHECK_DEADLOCK FALSE
